@@ -5,7 +5,8 @@
     to_string.py on every run: formats, unit words, keyword dictionaries, unit-factor branch [gen_factor]). *)
 From Coq Require Import ZArith List String Ascii Bool.
 Require Import QV.Common.Outcome QV.Common.WText QV.Common.WBin64 QV.Model.WriterTypes QV.Gen.WriterTables
-               QV.Model.Writers QV.Proofs.Writers.
+               QV.Model.Writers QV.Proofs.Writers
+               QV.Model.Text QV.Proofs.TextRT QV.Proofs.TextLex QV.Proofs.TextRoundTrip QV.Proofs.TextRoundTripXyz QV.Proofs.WritersReread.
 Import ListNotations.
 Open Scope Z_scope.
 
@@ -112,6 +113,45 @@ Theorem C08_converted_value_nearest : forall a b, 0 <= bm a -> 0 <= bm b ->
   /\ 2 * Z.abs (bm r * 2 ^ (be r - e) - bm a * bm b) <= 2 ^ (be r - e).
 Proof. exact b64mul_bound. Qed.
 
+(** Re-reading the rendered CHARACTERS with the reader model of C07 (Model/Text.v, tied to from_string): for
+    every molecule the format can carry, the psi4 / xyz / xyz+ text states each atom once, in order, under the
+    program's spelling ([is_view]: label = the template applied to the atom, coordinates = coordinate * factor in
+    binary64), the coordinates as the decimals printed at the requested precision ([printed]), the unit, and — psi4,
+    xyz+ — total charge and multiplicity (psi4 with one fragment states them as that fragment's). *)
+Theorem C08_psi4_text_states_the_molecule : forall cfg m text kw w r,
+  s_lower (w_dtype cfg) = "psi4"%string -> to_string_model cfg m = Ok (text, kw) ->
+  unit_word (units_of e_psi4 cfg) = Some (w, r) -> psi4_fits cfg m -> mono 0 (m_seps m) ->
+  exists atoms p,
+    Forall2 (is_view (af_of e_psi4 cfg) (gf_of e_psi4 cfg) (factor_of e_psi4 cfg m)) (m_atoms m) atoms
+    /\ parse "psi4" text = Ok p
+    /\ p_elbl p = map av_label atoms
+    /\ p_geom p = flat_map (printed (w_prec cfg)) atoms
+    /\ p_units p = Some r
+    /\ match m_seps m with
+       | [] => p_fchg p = Some [Some (dz (m_chg m))] /\ p_fmult p = Some [Some (m_mult m)]
+       | _ => p_molchg p = Some (dz (m_chg m)) /\ p_molmult p = Some (m_mult m)
+       end.
+Proof. exact psi4_text_states_the_molecule. Qed.
+Theorem C08_xyz_text_states_the_molecule : forall cfg m text kw,
+  s_lower (w_dtype cfg) = "xyz"%string -> w_afmt cfg = None -> w_gfmt cfg = None ->
+  to_string_model cfg m = Ok (text, kw) -> unit_word_xyz (units_of e_xyz cfg) = Some ("", "Angstrom")%string ->
+  xyz_fits cfg m ->
+  exists atoms p,
+    Forall2 (is_view "{elem}" "@{elem}" (factor_of e_xyz cfg m)) (m_atoms m) atoms
+    /\ parse "xyz" text = Ok p
+    /\ p_elbl p = map av_label atoms /\ p_geom p = flat_map (printed (w_prec cfg)) atoms /\ p_units p = Some "Angstrom"%string.
+Proof. exact xyz_text_states_the_molecule. Qed.
+Theorem C08_xyzplus_text_states_the_molecule : forall cfg m text kw w r,
+  s_lower (w_dtype cfg) = "xyz+"%string -> w_afmt cfg = None -> w_gfmt cfg = None ->
+  to_string_model cfg m = Ok (text, kw) -> unit_word_xyz (units_of e_xyzp cfg) = Some (w, r) ->
+  xyzp_fits cfg m -> name_ok (mol_name m) ->
+  exists atoms p,
+    Forall2 (is_view "{elem}" "@{elem}" (factor_of e_xyzp cfg m)) (m_atoms m) atoms
+    /\ parse "xyz+" text = Ok p
+    /\ p_elbl p = map av_label atoms /\ p_geom p = flat_map (printed (w_prec cfg)) atoms /\ p_units p = Some r
+    /\ p_molchg p = Some (dz (m_chg m)) /\ p_molmult p = Some (m_mult m).
+Proof. exact xyzplus_text_states_the_molecule. Qed.
+
 (* ------------------------------------------------------------------------------------------ *)
 (** Non-vacuity: O / ghost H_a / H, two fragments, anion, stored in Angstrom with a pinned input_units_to_au,
     written for psi4 in Bohr at width 14, precision 6. *)
@@ -164,3 +204,6 @@ Print Assumptions C08_molpro_ghosts_declared.
 Print Assumptions C08_molpro_dummy_card_lists_the_ghosts.
 Print Assumptions C08_printed_digits_nearest.
 Print Assumptions C08_converted_value_nearest.
+Print Assumptions C08_psi4_text_states_the_molecule.
+Print Assumptions C08_xyz_text_states_the_molecule.
+Print Assumptions C08_xyzplus_text_states_the_molecule.
